@@ -11,8 +11,11 @@
 (*        a linear scan with the rules' own Match (the oracle of the property)  *)
 (* Allowed: no crash; every returned rule truly matches (got is a subset of     *)
 (* ref); before the fault both engines agree; after it the matching network     *)
-(* rules are a subset of the twin's, and those the faulted engine had already   *)
-(* returned before the fault (so they were materialised) are still returned.    *)
+(* rules are a subset of the twin's, and every rule (network or hosts entry) the *)
+(* faulted engine had already returned before the fault - so it was materialised *)
+(* - is still returned whenever the twin returns it (a hosts entry the twin      *)
+(* returns is consulted by the faulted engine too: it has no more basic rules    *)
+(* than the twin).                                                               *)
 EXTENDS Histories, Json
 Trace == ndJsonDeserialize("trace.ndjson")
 VARIABLES l, faulted, seen
@@ -31,10 +34,10 @@ Step ==
                          ELSE IF ~(got \subseteq ref) THEN "every returned rule truly matches"
                          ELSE IF ~faulted /\ (got # twin \/ gotnet # twinnet) THEN "equal before the fault"
                          ELSE IF ~(gotnet \subseteq twinnet) THEN "subset of the fault-free answer"
-                         ELSE IF ~((seen \cap twinnet) \subseteq gotnet) THEN "materialised rules still served"
+                         ELSE IF ~((seen \cap twin) \subseteq got) THEN "materialised rules still served"
                          ELSE "ok"
               IN /\ faulted' = faulted
-                 /\ seen' = IF faulted THEN seen ELSE seen \cup gotnet
+                 /\ seen' = IF faulted THEN seen ELSE seen \cup got
                  /\ (why = "ok" \/ Reject(why))
 Next == Step
 =============================================================================
